@@ -231,6 +231,9 @@ def clone_wire(old_wire, name=None):
 
     if isinstance(old_wire, Const):
         return Const(old_wire.val, old_wire.bitwidth, name=name)
+    elif isinstance(old_wire, Register):
+        return old_wire.__class__(old_wire.bitwidth, name=name,
+                                  reset_value=old_wire.reset_value)
     else:
         return old_wire.__class__(old_wire.bitwidth, name=name)
 
